@@ -124,12 +124,13 @@ def check_aggregators(inp):
   agg, per_param, quant = _aggs()[name]
   rs = np.random.RandomState(inp.get('seed', 0))
   nc = int(inp.get('clients', 3))
-  clients = [(b'c%d' % i, {'w': jnp.asarray(rs.randn(4, 2).astype(np.float32)), 'b': jnp.asarray(rs.randn(3).astype(np.float32))},
+  # 40 coordinates: two rounds with independent noise coincide with probability < 1e-8
+  clients = [(b'c%d' % i, {'w': jnp.asarray(rs.randn(8, 4).astype(np.float32)), 'b': jnp.asarray(rs.randn(8).astype(np.float32))},
               float(rs.randint(1, 5))) for i in range(nc)]
   state = agg.init()
   seen_keys = [np.asarray(state.rng).tolist()]
   prev_out = None
-  size, leaves = 11, 2
+  size, leaves = 40, 2
   for rnd in range(int(inp.get('rounds', 3))):
     st_key = state.rng
     out, new_state = agg.apply(iter(clients), state)
